@@ -117,6 +117,14 @@ class Run:
         self.log = []
         FakeArena.current = self
         self.heap = bheap.Heap(size=PAGE)
+        if lock == 'auto':
+            # a scheduler-aware look-alike of the kind of lock the Heap
+            # itself chose (a re-entrant one lets a finaliser's free() into
+            # the middle of malloc())
+            import threading
+            lock = vthreading.RLock() if isinstance(
+                self.heap._lock, type(threading.RLock())) \
+                else vthreading.Lock()
         if lock is not None:
             self.heap._lock = lock
 
@@ -636,7 +644,7 @@ def _run_conc(cfg, prefix, verbose=False):
     log = []
     bad = []
     with vos.fresh(sched):
-        run = Run(lock=vthreading.Lock())
+        run = Run(lock='auto')
         heap = run.heap
         pre = []
         msg = None
@@ -950,7 +958,7 @@ def _run_gc(case, verbose=False):
     # a lock with threading.Lock semantics (not re-entrant, try-lock fails
     # when held) that raises vos.WouldBlock where the real one would block
     # this single thread forever
-    run = Run(lock=vthreading.Lock())
+    run = Run(lock='auto')
     for o in case['prefix']:
         run.raw(o)
     errors = []
